@@ -13,7 +13,7 @@ RULE = ("rulesets with a `cgroup` pattern (literal, *, ?, multi-level) and optio
         "per-instance scripts; per tick the oracle requires: evaluated set == existing matching (tagged) dirs, each exactly once; "
         "detectors of every instance run once; instance numbers stable while matched and fresh after an absence; per-instance "
         "pause/suspension evolve independently (engine state machine per instance); prerun reaches every live instance every tick; "
-        "actions initialised with cgroup=<that cgroup> unless they name their own; no sanitizer report on discard. "
+        "actions initialised with cgroup=<that cgroup> unless they name their own; no sanitizer report on discard. Patterns with brace alternatives (overlapping, or with an alternative that does not exist) and one-tick EMFILE faults on opening a matching cgroup's directory (evaluation on that tick not judged, instance and state afterwards are) are part of the mix. "
         "non-trivial = >=1 instance dropped and >=1 instance created after tick 0 and >=1 chain start; distinct by config+history hash")
 ASSUMPTIONS = c02.ASSUMPTIONS + ["matching is recomputed by an independent per-component fnmatch over the python world model",
                                   "xattrs are emulated by the harness keyed by inode (a re-created directory has none, as on kernfs)"]
@@ -120,7 +120,8 @@ def real_cases(seed, n):
         info = {}
         for nm in names:
             spec, mine = KG.gen_node(rng, pids, pidcounts=(1, 2, 3))
-            spec["files"]["memory.swap.current"] = "%d\n" % rng.randint(4096, 1 << 30)
+            # (kill_by_swap_usage runs with threshold "1" = 1 MB: every instance's cgroup has to be above it to be a candidate)
+            spec["files"]["memory.swap.current"] = "%d\n" % rng.randint(2 << 20, 1 << 30)
             cgs["wl/" + nm] = spec
             info["wl/" + nm] = mine
         args = {}
@@ -272,6 +273,63 @@ def live_sets(scn):
     return out, ws
 
 
+def disabled_cases(seed, n):
+    """a ruleset-level cgroup ruleset that a drop-in disables for a while (disable-on-drop-in): it does not act meanwhile, but a
+    cgroup that disappears during those ticks is gone all the same - what is re-created later starts from fresh state"""
+    rng = random.Random(seed * 1000003 + 1111)
+    for i in range(n):
+        rs = c02.gen_ruleset(rng, "rc", delays=("0", "1", "3", None), act_delay=rng.random() < 0.5)
+        rs["cgroup"] = "wl/*"
+        rs["drop-in"] = {"detectors": True, "actions": True, "disable-on-drop-in": True}
+        nticks = rng.randint(10, 14)
+        names = ["wl/a", "wl/b", "wl/c"]
+        cg = {"/": W.root_cgroup(), "wl": W.cgroup()}
+        for u in names:
+            cg[u] = W.cgroup()
+        t_add = rng.randint(1, 3)
+        t_rem = rng.randint(t_add + 3, nticks - 2)
+        ticks = [{"step_ns": rng.choice([1, 1, 2]) * 10**9, "ops": []} for _ in range(nticks)]
+        u = "x%d" % i
+        ticks[t_add]["dropins"] = [{"op": "add", "tag": "off.json", "_u": u, "_target": "rc",
+                                    "config": {"rulesets": [{"name": "rc", "detectors": [["dg", W.det(u + ".d")]], "actions": [W.act(u + ".a")]}]}}]
+        ticks[t_rem]["dropins"] = [{"op": "remove", "tag": "off.json"}]
+        # while the base is disabled: one cgroup goes and comes back after 1+ ticks of absence, one goes for good, one stays
+        victim = rng.choice(names)
+        t_gone = rng.randint(t_add, t_rem - 2)
+        t_back = rng.randint(t_gone + 1, t_rem - 1) if rng.random() < 0.8 else rng.randint(t_rem, nticks - 1)
+        ticks[t_gone]["ops"].append({"op": "rm", "cg": victim})
+        ticks[t_back]["ops"].append(dict(op="mk", cg=victim, **W.cgroup()))
+        if rng.random() < 0.5:
+            other = rng.choice([x for x in names if x != victim])
+            ticks[rng.randint(t_add, t_rem - 1)]["ops"].append({"op": "rm", "cg": other})
+        scripts = c02.gen_scripts(rng, [rs], nticks, rng.choice([0.6, 0.9]), async_p=0.2, stop_p=0.3)
+        cid = "C11d-%d-%d" % (seed, i)
+        scn = c02.mk_scn(cid, {"rulesets": [rs]}, scripts, ticks, {"cgroups": cg})
+        yield core.Case(cid, [scn], {"pattern": "wl/*", "xattr": False, "ticks": nticks, "disabled": [t_add, t_rem], "absent": [victim, t_gone, t_back]})
+
+
+def disabled_ticks(scn, events):
+    """{ruleset: set of ticks} on which a base ruleset with disable-on-drop-in is targeted by an active drop-in, read off the
+    adaptor's own results in the order they happened relative to the tick's evaluation"""
+    dis = {r["name"] for r in scn["config"]["rulesets"] if (r.get("drop-in") or {}).get("disable-on-drop-in")}
+    if not dis:
+        return None
+    _, tks = engine.split_ticks(events)
+    active, out = {}, {n: set() for n in dis}
+    for ti, evs in enumerate(tks):
+        tgt = {o["tag"]: o.get("_target") for o in (scn["ticks"][ti].get("dropins", []) if ti < len(scn["ticks"]) else []) if o["op"] == "add"}
+        for e in evs:
+            if e.get("ev") == "dropin_result":
+                if e["op"] == "add" and e["ok"]:
+                    active[e["tag"]] = tgt.get(e["tag"])
+                elif e["op"] == "remove" or (e["op"] == "add" and not e["ok"]):
+                    active.pop(e["tag"], None)
+        for n in dis:
+            if n in active.values():
+                out[n].add(ti)
+    return out
+
+
 _cases_scripted = cases
 
 
@@ -279,6 +337,7 @@ def cases(seed, tier):
     yield from _cases_scripted(seed, tier)
     yield from real_cases(seed, 300 if tier == "quick" else 2500)
     yield from restart_cases(seed, 60 if tier == "quick" else 500)
+    yield from disabled_cases(seed, 150 if tier == "quick" else 1500)
 
 
 def judge(case, results):
@@ -297,7 +356,7 @@ def judge(case, results):
     excused = None
     if scn.get("file_faults"):
         excused = {name: [{f["cg"] for f in scn["file_faults"] if f["from_tick"] <= ti <= f["to_tick"]} for ti in range(len(per))] for name, per in live.items()}
-    viol, st = engine.check(scn["config"], res.events, live=live, nticks=len(scn["ticks"]), excused=excused)
+    viol, st = engine.check(scn["config"], res.events, live=live, nticks=len(scn["ticks"]), excused=excused, disabled=disabled_ticks(scn, res.events))
     st["open_faults_fired"] = sum(1 for e in res.events if e.get("ev") == "open_fault")
     st["dropin_requests"] = sum(1 for e in res.events if e.get("ev") == "dropin")
     st["dropin_adds_applied"] = sum(1 for e in res.events if e.get("ev") == "dropin_result" and e["op"] == "add" and e["ok"])
